@@ -86,7 +86,7 @@ impl Context for SlowContext {
 }
 
 /// number of expensive sources at the end of `sources()` (not under Miri)
-const HEAVY: usize = 4;
+const HEAVY: usize = 5;
 
 fn sources() -> Vec<String> {
     // the interpreter is ~1000x slower: same shapes, smaller sizes (still above the usual inline-buffer sizes 16 / 32)
@@ -130,6 +130,7 @@ fn sources() -> Vec<String> {
         v.push("(max(big), typeof(min(big)), typeof(max(big)))".to_string());
         v.push("contains_any(hay, needles)".to_string());
         v.push("contains(big, 1.0) && contains_any(hay, (5, 7, 4099))".to_string());
+        v.push("(contains(huge, 69999), contains(huge, -1), contains(huge, 0.5))".to_string());
     }
     if cfg!(miri) {
         // one of the two many-builtin expressions is enough for the interpreter, and the wide tuple covers wide nodes
@@ -186,6 +187,7 @@ fn make_ctx(variant: usize) -> Ctx {
             .collect();
         c.set_value("big".into(), Value::Tuple(big)).unwrap();
         c.set_value("hay".into(), Value::Tuple((0..2100i64).map(Value::Int).collect())).unwrap();
+        c.set_value("huge".into(), Value::Tuple((0..70_000i64).map(Value::Int).collect())).unwrap();
         let mut needles: Vec<Value> = (0..2100i64).map(|i| Value::Int(if i == 0 { 10 } else { 5000 + i })).collect();
         needles.push(Value::Empty);
         c.set_value("needles".into(), Value::Tuple(needles)).unwrap();
@@ -259,6 +261,24 @@ fn main() {
     let total_evals = Arc::new(AtomicUsize::new(0));
     let mut signatures: HashSet<u64> = HashSet::new();
     let mut samples: Vec<String> = Vec::new();
+    type Job = (Arc<Ctx>, Arc<Node>);
+    let pool: Vec<(std::sync::mpsc::Sender<Job>, std::sync::mpsc::Receiver<String>)> = (0..(if cfg!(miri) { 2 } else { 3 }))
+        .map(|_| {
+            let (tx, rx) = std::sync::mpsc::channel::<Job>();
+            let (rtx, rrx) = std::sync::mpsc::channel::<String>();
+            std::thread::spawn(move || {
+                while let Ok((c, t)) = rx.recv() {
+                    let got = format!("{:?}", t.eval_with_context(&*c));
+                    drop(c);
+                    drop(t);
+                    if rtx.send(got).is_err() {
+                        break;
+                    }
+                }
+            });
+            (tx, rrx)
+        })
+        .collect();
     for round in 0..rounds {
         // few shared objects, many threads
         let trees: Vec<Arc<Node>> = srcs.iter().map(|s| Arc::new(build_operator_tree::<DefaultNumericTypes>(s).unwrap())).collect();
@@ -305,6 +325,41 @@ fn main() {
                 })
                 .collect(),
         );
+        // constant expressions, each precompiled as the very first thing its (fresh) thread does, then evaluated by every
+        // thread: whatever a thread numbers or remembers about "its" trees must not identify a tree of another thread
+        let const_trees: Arc<Mutex<Vec<(Arc<Node>, String)>>> = Arc::new(Mutex::new(Vec::new()));
+        let barrier2 = Arc::new(Barrier::new(threads));
+        // long-lived threads (they outlive every context of the run) call a capturing function of a context that the
+        // main thread creates for this round and drops before the next one
+        {
+            let captured = 1_000_000 + round as i64 * 7;
+            let mut c = Ctx::new();
+            c.set_function("captured".into(), Function::new(move |_| Ok(Value::Int(captured)))).unwrap();
+            c.set_value("pad".into(), Value::Int(round as i64)).unwrap();
+            let c = Arc::new(c);
+            let t = Arc::new(build_operator_tree::<DefaultNumericTypes>("captured() + pad * 0").unwrap());
+            for (tx, _) in pool.iter() {
+                tx.send((c.clone(), t.clone())).expect("pool thread alive");
+            }
+            for (k, (_, rx)) in pool.iter().enumerate() {
+                match rx.recv_timeout(std::time::Duration::from_secs(if cfg!(miri) { 900 } else { 180 })) {
+                    Ok(got) => {
+                        total_evals.fetch_add(1, Ordering::Relaxed);
+                        let want = format!("{:?}", Ok::<Value, EvalexprError>(Value::Int(captured)));
+                        if got != want {
+                            mismatches.fetch_add(1, Ordering::Relaxed);
+                            println!("MISMATCH long-lived thread {} round {}: capturing function of this round's context: expected {} got {}", k, round, want, got);
+                        }
+                    },
+                    Err(_) => {
+                        mismatches.fetch_add(1, Ordering::Relaxed);
+                        println!("MISMATCH long-lived thread {} round {}: no answer", k, round);
+                    },
+                }
+            }
+            // the workers have dropped their handles before answering: the context dies here, on the main thread
+            drop(c);
+        }
         let barrier = Arc::new(Barrier::new(threads));
         let expected = Arc::new(expected.clone());
         let hot = srcs.iter().position(|s| s.starts_with("(1, 2, 3")).expect("the literal lookup table is one of the sources");
@@ -331,11 +386,37 @@ fn main() {
             let fresh_tree = fresh_tree.clone();
             let fresh_name = fresh_name.clone();
             let per_thread = per_thread.clone();
+            let const_trees = const_trees.clone();
+            let barrier2 = barrier2.clone();
             handles.push(std::thread::spawn(move || {
                 THREAD_ID.with(|t| t.set(tid + 1));
+                {
+                    // the first tree this thread ever builds: a constant expression of its own
+                    let (x, y) = (tid as i64 + 2, round as i64 + 3);
+                    let src = format!("({} + {}) * ({} - 1)", x, y, x);
+                    let t = Arc::new(build_operator_tree::<DefaultNumericTypes>(&src).expect("constant expression precompiles"));
+                    let want = format!("{:?}", Ok::<Value, EvalexprError>(Value::Int((x + y) * (x - 1))));
+                    const_trees.lock().unwrap().push((t, want));
+                }
                 let mut r = Rng(seed ^ (round << 20) ^ ((tid as u64) << 40));
                 barrier.wait();
                 let mut out: Vec<String> = Vec::new();
+                barrier2.wait();
+                {
+                    let all: Vec<(Arc<Node>, String)> = const_trees.lock().unwrap().clone();
+                    for pass in 0..2 {
+                        for (k, (t, want)) in all.iter().enumerate() {
+                            // (own clones as well: a clone made here is a tree of this thread)
+                            let got = if pass == 0 { format!("{:?}", t.eval()) } else { format!("{:?}", (**t).clone().eval()) };
+                            total.fetch_add(1, Ordering::Relaxed);
+                            if got != *want {
+                                mismatches.fetch_add(1, Ordering::Relaxed);
+                                out.push(format!("MISMATCH thread {} round {}: constant tree #{} built first thing on another thread: expected {} got {}", tid, round, k, want, got));
+                                break;
+                            }
+                        }
+                    }
+                }
                 // a context set up on this very thread (whatever a context remembers about the thread that built it
                 // must not leak into a shared tree)
                 let own_variant = tid % nctx;
@@ -373,15 +454,22 @@ fn main() {
                         break;
                     }
                 }
-                // builtins on arguments that are this thread's own, while the other threads use theirs
-                for _ in 0..(if cfg!(miri) { 1 } else { 4 }) {
-                    for (src, want) in per_thread[tid].iter() {
-                        let got = format!("{:?}", evalexpr::eval_with_context(src, &*persistent));
-                        total.fetch_add(1, Ordering::Relaxed);
-                        if got != *want {
-                            mismatches.fetch_add(1, Ordering::Relaxed);
-                            out.push(format!("MISMATCH thread {} round {} `{}` (arguments of this thread's own) on the long-lived context: expected {} got {}", tid, round, &src[..src.len().min(80)], want, got));
-                            break;
+                // builtins on arguments that are this thread's own, while the other threads use theirs (all threads start this
+                // together: whatever is shared between calls is then written by many at once)
+                barrier.wait();
+                // (each expression several times in a row: the second evaluation is the one that would be answered from
+                // something remembered, while the other threads are busy replacing it)
+                let own_exprs: Vec<(Arc<Node>, &String, &String)> = per_thread[tid].iter().map(|(s, w)| (Arc::new(build_operator_tree::<DefaultNumericTypes>(s).expect("precompiles")), s, w)).collect();
+                'own: for _ in 0..(if cfg!(miri) { 1 } else { 10 }) {
+                    for (tree, src, want) in own_exprs.iter() {
+                        for rep in 0..(if cfg!(miri) { 2 } else { 8 }) {
+                            let got = if rep % 4 == 3 { format!("{:?}", evalexpr::eval_with_context(src, &*persistent)) } else { format!("{:?}", tree.eval_with_context(&*persistent)) };
+                            total.fetch_add(1, Ordering::Relaxed);
+                            if got != **want {
+                                mismatches.fetch_add(1, Ordering::Relaxed);
+                                out.push(format!("MISMATCH thread {} round {} `{}` (arguments of this thread's own) on the long-lived context: expected {} got {}", tid, round, &src[..src.len().min(80)], want, got));
+                                break 'own;
+                            }
                         }
                     }
                 }
